@@ -489,7 +489,9 @@ theorem closing_step (c : Cfg) {s : St} (a : Act) (h : Closing s) : Closing (ste
         · exact h (Or.inl hw)
     · rename_i cl hw
       cases cl
-      · split at hh <;> first | simp [afterFlush] at hh | simp at hh
+      · split at hh
+        · simp [afterFlush] at hh
+        · simp [afterBatch] at hh
       · exact h (Or.inr (Or.inl hw))
   | fdrain =>
     simp only [step, fdrainStep]
